@@ -301,6 +301,166 @@ func capBoundary(ctx *hx.Ctx, extra int) {
 	ctx.Kind(Format.Name + " cap-boundary")
 }
 
+// ---- near-cap probes (C08) ----
+
+const ncFrag = 60000 // piece size of the build-up (keeps it to ~35 packets)
+
+func fill(n int) []byte {
+	b := make([]byte, n)
+	for i := range b {
+		b[i] = 7
+	}
+	return b
+}
+
+// runHistory feeds a hand-built packet history to a fresh decoder, applies the C08 oracles
+// directly (no panic, returned frame within the documented maximum, retained memory within the
+// proved bound) and, if corr, records it as a correspondence case (a near-cap line has ~2 million
+// tokens and costs the extracted model several seconds).
+func runHistory(ctx *hx.Ctx, name string, hist []*rtp.Packet, corr bool) {
+	d, _ := Format.NewDecoder(0)
+	ctx.Eval()
+	var c, o hx.L
+	maxPkt := 0
+	for _, p := range hist {
+		if len(p.Payload) > maxPkt {
+			maxPkt = len(p.Payload)
+		}
+	}
+	frameBound := capSize
+	if true && maxPkt > frameBound {
+		frameBound = maxPkt
+	}
+	if corr {
+		c.N(2).I(0).I(len(hist))
+		for _, p := range hist {
+			codec.PutPacket(&c, p)
+		}
+	}
+	for i, p := range hist {
+		q := *p
+		q.Payload = append([]byte(nil), p.Payload...)
+		var fr codec.Frame
+		res := codec.ResPanic
+		func() {
+			defer func() {
+				if x := recover(); x != nil {
+					ctx.Failf(-1, "dec-panic", name, "%s %s: Decode panicked at packet %d: %v", Format.Name, name, i, x)
+				}
+			}()
+			fr, res = d.Decode(&q)
+		}()
+		o.I(res)
+		if res == codec.ResPanic {
+			break
+		}
+		if res == codec.ResFrame {
+			codec.PutFrame(&o, fr)
+			if n := len(fr[0]); n > frameBound {
+				ctx.Failf(-1, "frame-too-big", name, "%s %s: packet %d returned a frame of %d bytes, documented maximum %d", Format.Name, name, i, n, capSize)
+			}
+		}
+		if i%8 == 0 || i == len(hist)-1 {
+			b, sl := codec.Retained(d.Raw())
+			if b > frameBound {
+				ctx.Failf(-1, "retained-bytes", name, "%s %s: %d bytes retained after packet %d (bound %d)", Format.Name, name, b, i, frameBound)
+			}
+			if sl > frameBound {
+				ctx.Failf(-1, "retained-slices", name, "%s %s: %d slice headers retained after packet %d", Format.Name, name, sl, i)
+			}
+		}
+	}
+	if corr {
+		b, sl := codec.Retained(d.Raw())
+		o.I(b).I(sl)
+		ctx.Corr(c.String(), o.String())
+	}
+	ctx.Kind(Format.Name + " near-cap")
+	ctx.Nontrivial(Format.Name + "|near-cap|" + name)
+}
+
+// ncProbe: fragments summing to total-lastLen, then a last packet of lastLen bytes; the frame
+// ends there (end = marker for VP8, E bit for VP9) or one packet later.
+type ncProbe struct {
+	total  int  // bytes of the frame once the last packet has arrived
+	end    bool // the last packet ends the frame; otherwise a 1-byte packet that does follows
+	mark   bool // RTP marker on the ending packet (VP9: irrelevant to the decoder, E decides)
+	first1 bool // the first fragment has 1 byte only (more, smaller-indexed slices)
+}
+
+func (pr ncProbe) String() string {
+	return fmt.Sprintf("total=cap%+d end=%v marker=%v first1=%v", pr.total-capSize, pr.end, pr.mark, pr.first1)
+}
+
+func (pr ncProbe) history() []*rtp.Packet {
+	seq := uint16(65520)
+	var hist []*rtp.Packet
+	add := func(first, last, marker bool, n int) {
+		hist = append(hist, &rtp.Packet{Header: rtp.Header{Version: 2, PayloadType: 96, SequenceNumber: seq, Marker: marker},
+			Payload: append(descriptor(first, last), fill(n)...)})
+		seq++
+	}
+	rem := pr.total
+	if !pr.end {
+		rem-- // the closing packet brings the last byte
+	}
+	first := true
+	if pr.first1 {
+		add(true, false, false, 1)
+		rem--
+		first = false
+	}
+	for rem > ncFrag {
+		add(first, false, false, ncFrag)
+		first = false
+		rem -= ncFrag
+	}
+	add(first, pr.end, pr.end && pr.mark, rem)
+	if !pr.end {
+		add(false, true, true, 1)
+	}
+	return hist
+}
+
+func nearCapProbes(ctx *hx.Ctx) {
+	probes := []ncProbe{
+		{total: capSize, end: true, mark: true},     // exactly the maximum: returned
+		{total: capSize + 1, end: true, mark: true}, // one byte over, at the ending packet
+		{total: capSize + 1, end: false},            // one byte over, brought by a separate 1-byte packet
+		{total: capSize, end: false},                // exactly the maximum, ended by a 1-byte packet
+		{total: capSize - 1, end: true, mark: true, first1: true},
+	}
+	if ctx.Thorough {
+		for _, k := range []int{-2, -1, 0, 1, 2, 127, ncFrag, ncFrag + 1} {
+			for _, end := range []bool{true, false} {
+				for _, f1 := range []bool{true, false} {
+					probes = append(probes, ncProbe{total: capSize + k, end: end, mark: end, first1: f1})
+				}
+				probes = append(probes, ncProbe{total: capSize + k, end: end, mark: false})
+			}
+		}
+	}
+	for i, pr := range probes {
+		corr := i == 1 || i == 3
+		if ctx.Thorough {
+			corr = i < 5 || i%4 == 0
+		}
+		runHistory(ctx, pr.String(), pr.history(), corr)
+	}
+}
+
+// descriptor of a hand-built packet: I=1, B on the first, E on the last, 15-bit picture ID
+func descriptor(first, last bool) []byte {
+	h := byte(0x80)
+	if first {
+		h |= 0x08
+	}
+	if last {
+		h |= 0x04
+	}
+	return []byte{h, 0x81, 0x02}
+}
+
 func main() {
 	ctx := hx.Start("vp9")
 	defer ctx.Finish()
@@ -319,6 +479,7 @@ func main() {
 	if ctx.Prop == "C08" {
 		capBoundary(ctx, 0)
 		capBoundary(ctx, 1)
+		nearCapProbes(ctx)
 	}
 	Format.Run(ctx)
 	if ctx.Prop == "C08" {
